@@ -17,7 +17,7 @@ def valid : Req :=
   { openStream := .ok, firstRead := .ok, laterReads := [], hasMethod := true, methodText := true, version := .current,
     traceparent := .absent, tracestate := .absent, shmName := .absent, shmSize := .absent, isPointer := false,
     staticShm := false, shmOpen := .ok, allocInit := .ok, resolve := .ok, deser := .ok, release := .ok, ncols := 2, rows := 1, asPy := .ok,
-    isTransportOptions := false, methodKnown := true, versionCheck := .ok, validate := .ok, call := .ok }
+    isTransportOptions := false, streamNoHeader := false, peerWaits := false, methodKnown := true, versionCheck := .ok, validate := .ok, call := .ok }
 
 def missingSegment : Req := { valid with shmName := .text, shmSize := .numeric, shmOpen := .raises .FileNotFoundError }
 def foreignSegment : Req := { valid with shmName := .text, shmSize := .numeric, allocInit := .raises .ValueError }
@@ -74,6 +74,14 @@ theorem region_read_needs_conversion :
     (serveOne { Tables.gen with resolveConvert := [] } pointerNotIpc).outcome = .silentStop ∧
     (serveOne Tables.gen pointerSchemaOnly).outcome = .replyContinue ∧
     (serveOne Tables.gen pointerNotIpc).outcome = .replyContinue := by decide
+
+/-- a refused header-less stream call from a lockstep peer: if the server drained the input stream BEFORE writing the error,
+both sides would wait for each other -/
+def refusedStream : Req := { valid with streamNoHeader := true, peerWaits := true, validate := .raises .TypeError }
+
+theorem refusal_must_reply_first :
+    (serveOne { Tables.gen with validationReplyFirst := false } refusedStream).outcome = .hang ∧
+    (serveOne Tables.gen refusedStream).outcome = .replyContinue := by decide
 
 theorem assert_gone : Gen.C05.pointerAssertsLength = false := by decide
 
